@@ -790,6 +790,66 @@ class G:
       env[v] = ("union",) + tuple(kinds)
     return lines
 
+  def flow_stmt(self, env):
+    """Conditional mutation of a container / attribute followed by a read:
+    the read must keep every value that can be there."""
+    kind = self.pick(["dict-store", "dict-in", "attr-store", "list-mutate",
+                      "list-insert", "dict-del", "set-add", "nested-store"])
+    self.features.add("flow:" + kind)
+    v = self.fresh("v")
+    k1, k2 = self.some_kind(0, False), self.some_kind(0, False)
+    e1, e2 = self.expr({}, k1, 1), self.expr({}, k2, 1)
+    c = self.cond(env, 1)
+    env[v] = ("union", k1, k2)
+    if kind == "dict-store":
+      d = self.fresh("d")
+      key = self.pick(["'a'", "1", "'k'"])
+      return ["%s = {%s: %s, 'z': 0}" % (d, key, e1), "if %s:" % c,
+              "  %s[%s] = %s" % (d, key, e2), "%s = %s[%s]" % (v, d, key)]
+    if kind == "dict-in":
+      d = self.fresh("d")
+      w = self.fresh("v")
+      env[w] = "bool"
+      return ["%s = {}" % d, "if %s:" % c, "  %s['k'] = %s" % (d, e1),
+              "%s = 'k' in %s" % (w, d),
+              "%s = %s if 'k' in %s else %s" % (v, e1, d, e2)]
+    if kind == "attr-store":
+      cn = self.fresh("K")
+      o = self.fresh("o")
+      return ["class %s:" % cn, "  x = %s" % e1, "  def set(self, flag):",
+              "    if flag:", "      self.x = %s" % e2,
+              "%s = %s()" % (o, cn), "%s.set(%s)" % (o, c),
+              "%s = %s.x" % (v, o)]
+    if kind == "list-mutate":
+      l = self.fresh("l")
+      op = self.pick(["reverse()", "sort(key=str)", "pop(0)", "clear()"])
+      w = self.fresh("v")
+      env[w] = ("union", k1, k2)
+      return ["%s = [%s, %s]" % (l, e1, e2), "%s.%s" % (l, op),
+              "%s = %s[0] if %s else %s" % (v, l, l, e1),
+              "%s = %s[-1] if %s else %s" % (w, l, l, e2)]
+    if kind == "list-insert":
+      l = self.fresh("l")
+      op = self.pick(["insert(0, %s)", "append(%s)", "extend([%s])",
+                      "__iadd__([%s])"]) % e2
+      return ["%s = [%s]" % (l, e1), "if %s:" % c, "  %s.%s" % (l, op),
+              "%s = %s[0]" % (v, l), "%s = %s[-1]" % (self.fresh("v"), l)]
+    if kind == "dict-del":
+      d = self.fresh("d")
+      return ["%s = {'a': %s, 'b': %s}" % (d, e1, e2), "if %s:" % c,
+              "  del %s['a']" % d, "%s = %s.get('a', %s)" % (v, d, e2)]
+    if kind == "set-add":
+      st_ = self.fresh("s")
+      hk1 = self.pick(["1", "'a'", "2.5"])
+      hk2 = self.pick(["None", "b'x'", "True"])
+      return ["%s = {%s}" % (st_, hk1), "if %s:" % c,
+              "  %s.add(%s)" % (st_, hk2), "%s = sorted(%s, key=str)[0]" % (
+                  v, st_)]
+    # nested-store
+    d = self.fresh("d")
+    return ["%s = {'o': {'i': %s}}" % (d, e1), "if %s:" % c,
+            "  %s['o']['i'] = %s" % (d, e2), "%s = %s['o']['i']" % (v, d)]
+
   def lambda_stmt(self, env):
     self.features.add("lambda")
     ln = self.fresh("lam")
@@ -1088,6 +1148,7 @@ class G:
         menu += ["lambda"]
       if self.cfg.functions:
         menu += ["dispatch"]
+      menu += ["flow"] * 2
       if ext:
         menu += ["ext"] * 5
       c = self.pick(menu)
@@ -1112,6 +1173,8 @@ class G:
         lines = self.lambda_stmt(env)
       elif c == "dispatch":
         lines = self.dispatch_stmt(env)
+      elif c == "flow":
+        lines = self.flow_stmt(env)
       elif c == "mutate":
         lines = self.mutate_stmt(env, "")
       else:
